@@ -334,6 +334,21 @@ def main():
         body = const_body(s, cname)
         emit(f"def {lname} : List String := [" + ", ".join(lean_str(x) for x in re.findall(STR, body)) + "]")
     emit("")
+    # the resource files and registers shipped under geodesy/resources (what `Plain` finds from the repo root)
+    resdir = os.path.join(REPO, "geodesy", "resources")
+    shipped = []
+    if os.path.isdir(resdir):
+        for fn in sorted(os.listdir(resdir)):
+            if fn.endswith(".resource") or fn.endswith(".md"):
+                with open(os.path.join(resdir, fn), encoding="utf-8") as fh:
+                    content = fh.read()
+                files[f"geodesy/resources/{fn}"] = hashlib.sha256(content.encode()).hexdigest()
+                shipped.append((fn, content))
+    emit("/-- the files of `geodesy/resources`: file name, content -/")
+    emit("def shippedResources : List (String × String) := [")
+    emit(",\n".join(f"  ({lean_str(n)}, {lean_str(c)})" for n, c in shipped))
+    emit("]")
+    emit("")
     emit("def sourceHashes : List (String × String) := [")
     emit(",\n".join(f"  ({lean_str(k)}, {lean_str(v)})" for k, v in sorted(files.items())))
     emit("]")
